@@ -59,7 +59,7 @@ def run(tier):
         lens, ind = [1, 2, 3], [1]
     else:
         lens, ind = [1, 2, 3, 4], [1, 2, 3]
-    base_tmo = 300 if tier == "quick" else 450
+    base_tmo = 600 if tier == "quick" else 750
     for L in lens:
         firsts = [-1] if L <= 2 else list(range(8))
         for F in firsts:
